@@ -72,6 +72,12 @@ func c01FlowVariants(desc string) []string {
 		"permit out ip from from from",
 		"permit out ip to to",
 		"allow sideways ip from any to any",
+		// legal, at the edges of the port space (the BESS plug-in expands small ranges port by port, in goroutines of its own)
+		"permit out udp from any 65530-65535 to assigned",
+		"permit out udp from any 0-5 to assigned",
+		"permit out tcp from any 65535 to assigned 65535",
+		"permit out udp from 10.0.0.1 1-200 to assigned",
+		"permit out udp from any 65436-65535 to assigned",
 		strings.Repeat("from any to ", 40),
 	)
 	return out
